@@ -325,3 +325,10 @@ def and_falls_back_to_bounds(ctx):
     """all six coupling sites build and_(self._constraints, self._strictbounds, onfail=self._strictbounds) under strict ranges and self._constraints otherwise"""
     for key, m in _coupling_sites(ctx):
         D.check_coupling(ctx, key, m)
+
+
+@rule('C03.e', min_instances=4)
+def coupling_reports_success_only_at_a_fixed_point(ctx):
+    """the and_ that couples the constraints with the strict bounds hands back a vector only where both members leave it unchanged (success path guarded by the fixed-point test and no pending exception), otherwise the bounds fallback (onfail); the members are called on copies, so an in-place member cannot make the history alias itself and fake the fixed point (shared with C17.a)"""
+    from .c17 import success_only_at_fixed_point
+    success_only_at_fixed_point(ctx, names=('and_',))
